@@ -208,8 +208,12 @@ def _Tuuid_validate(key):
 
     def _uvalid(cls, v):
         try:
+            if key == 'int' and isinstance(v, six.string_types):
+                v = int(v)  # the number as the text protocols carry it
             UUID(**{key:v})
-        except ValueError:
+        except (ValueError, TypeError, AssertionError):
+            # TypeError, AssertionError: text where UUID() wants bytes or a
+            # number, and the other way around
             return False
         return True
     return _uvalid
@@ -218,7 +222,7 @@ def _Tuuid_validate(key):
 _uuid_validate = {
     None: _uuid_validate_string,
     'hex': _Tuuid_validate('hex'),
-    'urn': _Tuuid_validate('urn'),
+    'urn': _Tuuid_validate('hex'),  # which takes the urn:uuid: form as well
     six.binary_type: _Tuuid_validate('bytes'),
     'bytes': _Tuuid_validate('bytes'),
     'bytes_le': _Tuuid_validate('bytes_le'),
